@@ -271,6 +271,8 @@ def build_x(case):
         x = stacked_from_ops(R, typ, ops)
     elif mode == "near":
         x = physical_stacked(case["obj"]) + float(case["eps"]) * expand(core, size)
+    elif mode == "gain":  # physical object times a common factor 1 + g: off the affine set in the identity direction only
+        x = physical_stacked(case["obj"]) * (1.0 + float(case["gain"]))
     elif mode == "feasible_phys":  # physical object; scaled into the cone for the inequality sets
         x = physical_stacked(case["obj"]) * (scale if case["kind"] == "ineq" else 1.0)
     elif mode == "feasible_ref":  # generic point of the affine set / boundary point of the cone
@@ -326,7 +328,7 @@ def _shapes_for(typ, tier):
 
 
 MODES = {
-    "eq": ["dense", "dense", "sparse", "near", "feasible_phys", "feasible_ref"],
+    "eq": ["dense", "dense", "sparse", "near", "gain", "feasible_phys", "feasible_ref"],
     "ineq": ["dense", "dense", "sparse", "spectral", "spectral", "near", "feasible_phys", "feasible_ref"],
 }
 
@@ -359,8 +361,10 @@ def proj_case(draw, tier, kinds):
     if mode == "spectral":
         k = n_ops(typ, m) * op_dim(typ, gen.dim_of(shape))
         case["spec"] = draw(st.lists(st.sampled_from(LEVELS), min_size=k, max_size=k))
-    if mode in ("near", "feasible_phys"):
+    if mode in ("near", "gain", "feasible_phys"):
         case["obj"] = draw(physical_case(typ, shape, m))
+    if mode == "gain":
+        case["gain"] = draw(st.sampled_from([-1.0, 1.0])) * draw(gen.log_uniform(1e-9, 1e-2))
     if mode == "near":
         case["eps"] = draw(gen.log_uniform(1e-9, 1e-1))
     return case
